@@ -312,6 +312,12 @@ func (p *ProtocolGraphQLWSHandler) Handle(ctx context.Context, engine subscripti
 
 		go p.handleKeepAlive(ctx)
 	case GraphQLWSMessageTypeStart:
+		if message.Id == "" {
+			// The id is mandatory: without it the results could only be sent as data/error/complete
+			// messages without an id, which no client can attribute to an operation.
+			p.writeEventHandler.HandleWriteEvent(GraphQLWSMessageTypeConnectionError, "", nil, errors.New("start message without id"))
+			return nil
+		}
 		return engine.StartOperation(ctx, message.Id, message.Payload, &p.writeEventHandler)
 	case GraphQLWSMessageTypeStop:
 		return engine.StopSubscription(message.Id, &p.writeEventHandler)
